@@ -62,10 +62,10 @@ def run(F, R, tier):
         if inner.get("k") == "If":
             conds = []
             split_cond(inner["cond"], True, conds)
-            ok = any(x.kind == "cond" and not x.pol and expr_text(x.node) == "should_reload_immediately" for x in conds) and diverges(F, inner["then"]) and "else" not in inner
+            ok = any(x.kind == "cond" and not x.pol and any(mentions_call(y, ["ModuleSlot::was_external_asset_load"]) for y in through_locals(x.node)) for x in conds) and diverges(F, inner["then"]) and "else" not in inner
         R.ob("C01-a", "an existing slot short-circuits unless it must be reloaded immediately", ok,
              "the existing-slot branch can fall through to a new load for slots that need no reload", where(dd))
-        sr = [n for n in walk(dd["then"]) if n.get("k") == "LetStmt" and n["pat"].get("name") == "should_reload_immediately"]
+        sr = [n for n in walk(dd["then"]) if n.get("k") == "LetStmt" and "init" in n and mentions_call(n["init"], ["ModuleSlot::was_external_asset_load"])]
         if R.ob("C01-a", "should_reload_immediately defined", len(sr) == 1, "shape changed", where(dd)):
             conds = []
             split_cond(sr[0]["init"], True, conds)
@@ -81,7 +81,7 @@ def run(F, R, tier):
     R.ob("C01-b", "both result arms record the redirect", len(chk) == 2, "check_specifier called %d time(s) in resolve_pending" % len(chk), rp["file"])
     for c in chk:
         a0, a1 = peel_value(c["args"][0]), peel_value(c["args"][1])
-        ok = a0.get("name") == "requested_specifier" and a1.get("k") == "MethodCall" and a1["name"] == "specifier"
+        ok = a0.get("res") == "local" and tyc(F, a0, "url::Url") and a1.get("k") == "MethodCall" and a1["name"] == "specifier" and peel_value(a1["recv"]).get("res") == "local"
         R.ob("C01-b", "redirect is recorded from the requested to the answered specifier", ok, "check_specifier(%s, %s)" % (expr_text(c["args"][0]), expr_text(c["args"][1])), where(c))
     cs = F.body("graph::Builder::check_specifier")
     ar = [n for n in cs["_nodes"] if callee_matches(n, ["Builder::add_redirect"])]
